@@ -20,7 +20,7 @@ RULE = ("two real dilated wormholes with dilate(ping_interval=x), x in 0.5..60 s
         "took effect on a CONNECTED pair; distinct = (x, behaviour, t0, latencies) tuples.")
 ASSUMPTIONS = ["Noise stand-in", "virtual time: all deadlines are decided on the simulated clock"]
 FLOORS = {"quick": {"pongs": 3000, "silent_cases_dropped": 60, "responsive_intervals": 3000},
-          "thorough": {"pongs": 200000, "silent_cases_dropped": 2500, "responsive_intervals": 200000}}
+          "thorough": {"pongs": 100000, "silent_cases_dropped": 2500, "responsive_intervals": 110000}}
 
 _events = []      # (time, manager, what, extra)
 _world = [None]
